@@ -1,8 +1,7 @@
 import MidnightZK.Proofs.C10.Limbs
-import Mathlib.Tactic.LinearCombination
 /-!
-Montgomery reduction and multiplication at limb level (carry chains by `omega`; the polynomial
-identities in the radix `W` by Mathlib's `linear_combination`).
+Montgomery reduction and multiplication at limb level (core only: carry chains by `omega`, the
+polynomial identity in the radix by `grind` over `Int`).
 -/
 namespace MidnightZK.C10
 
@@ -62,6 +61,29 @@ theorem W6_lit : W ^ 6 = 3940200619639447921227904010014361380507973927046544666
 theorem W7_lit : W ^ 7 = 726838724295606890549323807888004534353641360687318060281490199180639288113397923326191050713763565560762521606266177933534601628614656 := by decide +kernel
 theorem W1_lit : W = 18446744073709551616 := by decide +kernel
 
+/-- Chaining four reduction rounds: a polynomial identity in the radix. -/
+theorem poly_int (W V4 U3 U2 U1 L r4 r5 r6 r7 P0 P1 P2 P3 : Int)
+  (vd : V4 * W = U3 + r7 * W^4 + P3)
+  (vc : U3 * W = U2 + r6 * W^4 + P2)
+  (vb : U2 * W = U1 + r5 * W^4 + P1)
+  (va : U1 * W = L + r4 * W^4 + P0) :
+  V4 * W^4 = L + r4 * W^4 + r5 * W^5 + r6 * W^6 + r7 * W^7 + (P0 + P1 * W + P2 * W^2 + P3 * W^3) := by
+  have e1 : V4 * W^4 = (V4 * W) * W^3 := by grind
+  have e2 : (U3 + r7 * W^4 + P3) * W^3 = (U3 * W) * W^2 + r7 * W^7 + P3 * W^3 := by grind
+  have e3 : (U2 + r6 * W^4 + P2) * W^2 = (U2 * W) * W + r6 * W^6 + P2 * W^2 := by grind
+  rw [e1, vd, e2, vc, e3, vb]
+  have e4 : (U1 + r5 * W ^ 4 + P1) * W = U1 * W + r5 * W^5 + P1 * W := by grind
+  rw [e4, va]
+  grind
+theorem poly_nat (W V4 U3 U2 U1 L r4 r5 r6 r7 P0 P1 P2 P3 : Nat)
+  (vd : V4 * W = U3 + r7 * W^4 + P3)
+  (vc : U3 * W = U2 + r6 * W^4 + P2)
+  (vb : U2 * W = U1 + r5 * W^4 + P1)
+  (va : U1 * W = L + r4 * W^4 + P0) :
+  V4 * W^4 = L + r4 * W^4 + r5 * W^5 + r6 * W^6 + r7 * W^7 + (P0 + P1 * W + P2 * W^2 + P3 * W^3) := by
+  have := poly_int W V4 U3 U2 U1 L r4 r5 r6 r7 P0 P1 P2 P3 (by exact_mod_cast vd) (by exact_mod_cast vc) (by exact_mod_cast vb) (by exact_mod_cast va)
+  exact_mod_cast this
+
 /-- Value of eight limbs. -/
 def val8 (r0 r1 r2 r3 r4 r5 r6 r7 : Nat) : Nat :=
   r0 + r1 * W + r2 * W ^ 2 + r3 * W ^ 3 + r4 * W ^ 4 + r5 * W ^ 5 + r6 * W ^ 6 + r7 * W ^ 7
@@ -99,6 +121,136 @@ theorem redRounds_spec (p : MontParams) (r0 r1 r2 r3 r4 r5 r6 r7 : Nat) (hm : p.
   refine ⟨d4, d5, d6, d7, cd, k0 + k1 * W + k2 * W ^ 2 + k3 * W ^ 3, rfl, ld4, ld5, ld6, ld7, lcd, ?_, ?_⟩
   · simp only [W] at *
     omega
-  · linear_combination (W ^ 3) * vd + W ^ 2 * vc + W * vb + va
+  · simp only [Nat.add_zero] at va
+    have vb' : (b2 + b3 * W + b4 * W ^ 2 + b5 * W ^ 3 + cb * W ^ 4) * W =
+        (a1 + a2 * W + a3 * W ^ 2 + a4 * W ^ 3 + ca * W ^ 4) + r5 * W ^ 4 + k1 * p.m.val := by
+      rw [vb, Nat.add_mul]; omega
+    have vc' : (c3 + c4 * W + c5 * W ^ 2 + c6 * W ^ 3 + cc * W ^ 4) * W =
+        (b2 + b3 * W + b4 * W ^ 2 + b5 * W ^ 3 + cb * W ^ 4) + r6 * W ^ 4 + k2 * p.m.val := by
+      rw [vc, Nat.add_mul]; omega
+    have vd' : (d4 + d5 * W + d6 * W ^ 2 + d7 * W ^ 3 + cd * W ^ 4) * W =
+        (c3 + c4 * W + c5 * W ^ 2 + c6 * W ^ 3 + cc * W ^ 4) + r7 * W ^ 4 + k3 * p.m.val := by
+      rw [vd, Nat.add_mul]; omega
+    have h := poly_nat W _ _ _ _ (r0 + r1 * W + r2 * W ^ 2 + r3 * W ^ 3) r4 r5 r6 r7 _ _ _ _ vd' vc' vb' va
+    rw [h]
+    have e : (k0 + k1 * W + k2 * W ^ 2 + k3 * W ^ 3) * p.m.val =
+        k0 * p.m.val + k1 * p.m.val * W + k2 * p.m.val * W ^ 2 + k3 * p.m.val * W ^ 3 := by
+      simp only [Nat.add_mul, Nat.mul_assoc, Nat.mul_comm, Nat.mul_left_comm]
+    rw [e]
+
+theorem carry_zero (X c M : Nat) (h : X + c * W ^ 4 < 2 * M) (hM : 2 * M ≤ W ^ 4) : c = 0 := by
+  simp only [W4_eq] at *
+  omega
+
+/-- Final conditional subtraction of a Montgomery reduction, abstractly. -/
+theorem mont_final (X c M T K res W4 : Nat) (hc : c = 0) (hv : (X + c * W4) * W4 = T + K * M)
+    (hX : X + c * W4 < 2 * M)
+    (hge : M ≤ X → res = X - M) (hlt : X < M → res = (X + W4 - M + M) % W4) (h2m : 2 * M ≤ W4) :
+    res < M ∧ res * W4 % M = T % M := by
+  subst hc
+  simp only [Nat.zero_mul, Nat.add_zero] at hv hX
+  rcases Nat.lt_or_ge X M with h | h
+  · have e1 : X + W4 - M + M = X + W4 := Nat.sub_add_cancel (by omega)
+    have e2 : (X + W4 - M + M) % W4 = X := by
+      rw [e1, Nat.add_mod_right, Nat.mod_eq_of_lt (by omega)]
+    rw [hlt h, e2]
+    exact ⟨h, by rw [hv, Nat.add_mul_mod_self_right]⟩
+  · rw [hge h]
+    refine ⟨by omega, ?_⟩
+    have e2 : (X - M) * W4 + M * W4 = T + K * M := by
+      rw [← Nat.add_mul, Nat.sub_add_cancel h, hv]
+    have e3 : ((X - M) * W4 + M * W4) % M = (X - M) * W4 % M := Nat.add_mul_mod_self_left _ _ _
+    rw [← e3, e2, Nat.add_mul_mod_self_right]
+
+/-- `montgomery_reduce` (`jubjub/fr.rs`, `bls12_381/fq.rs`): for a modulus `M < 2^255` with
+`INV·m0 ≡ -1 (mod 2^64)` and every input `T < M·2^256`, the result is `< M` and is the unique
+residue `x` with `x·2^256 ≡ T (mod M)`, i.e. `T·R⁻¹ mod M`. -/
+theorem montReduce_core (p : MontParams) (r0 r1 r2 r3 r4 r5 r6 r7 : Nat) (hm : p.m.wf)
+    (h0 : r0 < W) (h1 : r1 < W) (h2 : r2 < W) (h3 : r3 < W) (h4 : r4 < W) (h5 : r5 < W)
+    (h6 : r6 < W) (h7 : r7 < W) (hinv : p.m.l0 * p.inv % W = W - 1)
+    (h2m : 2 * p.m.val ≤ W ^ 4) (hT : val8 r0 r1 r2 r3 r4 r5 r6 r7 < p.m.val * W ^ 4) :
+    (montReduce p r0 r1 r2 r3 r4 r5 r6 r7).wf ∧ (montReduce p r0 r1 r2 r3 r4 r5 r6 r7).val < p.m.val ∧
+    (montReduce p r0 r1 r2 r3 r4 r5 r6 r7).val * W ^ 4 % p.m.val =
+      val8 r0 r1 r2 r3 r4 r5 r6 r7 % p.m.val := by
+  obtain ⟨x4, x5, x6, x7, c, K, e, l4, l5, l6, l7, lc, hK, hv⟩ :=
+    redRounds_spec p r0 r1 r2 r3 r4 r5 r6 r7 hm h0 h1 h2 h3 h4 h5 h6 h7 hinv
+  simp only [montReduce, e]
+  generalize val8 r0 r1 r2 r3 r4 r5 r6 r7 = T at *
+  have hMpos : 0 < p.m.val := by
+    rcases Nat.eq_zero_or_pos p.m.val with h | h
+    · rw [h, Nat.zero_mul] at hT; omega
+    · exact h
+  have hKM : K * p.m.val < p.m.val * W ^ 4 := by
+    rw [Nat.mul_comm p.m.val]
+    exact Nat.mul_lt_mul_of_pos_right hK hMpos
+  have hX2 : (x4 + x5 * W + x6 * W ^ 2 + x7 * W ^ 3 + c * W ^ 4) * W ^ 4 < (2 * p.m.val) * W ^ 4 := by
+    rw [hv, Nat.two_mul, Nat.add_mul]
+    exact Nat.add_lt_add hT hKM
+  have hX : x4 + x5 * W + x6 * W ^ 2 + x7 * W ^ 3 + c * W ^ 4 < 2 * p.m.val :=
+    Nat.lt_of_mul_lt_mul_right hX2
+  have hc : c = 0 := carry_zero _ c _ hX h2m
+  obtain ⟨hw, hge, hlt⟩ := subL_spec p.m ⟨x4, x5, x6, x7⟩ p.m hm ⟨l4, l5, l6, l7⟩ hm
+  exact ⟨hw, mont_final (x4 + x5 * W + x6 * W ^ 2 + x7 * W ^ 3) c _ _ _ _ _ hc hv hX hge hlt h2m⟩
+
+theorem schoolbook_poly (a0 a1 a2 a3 b0 b1 b2 b3 W : Int) :
+    (a0 + a1 * W + a2 * W ^ 2 + a3 * W ^ 3) * (b0 + b1 * W + b2 * W ^ 2 + b3 * W ^ 3) =
+      a0 * b0 + (a0 * b1 + a1 * b0) * W + (a0 * b2 + a1 * b1 + a2 * b0) * W ^ 2 +
+      (a0 * b3 + a1 * b2 + a2 * b1 + a3 * b0) * W ^ 3 + (a1 * b3 + a2 * b2 + a3 * b1) * W ^ 4 +
+      (a2 * b3 + a3 * b2) * W ^ 5 + a3 * b3 * W ^ 6 := by
+  grind
+
+/-- The 4×4 schoolbook product: the eight limbs are `u64`s and denote `a·b` exactly. -/
+theorem schoolbook_spec (a b : L4) (ha : a.wf) (hb : b.wf) :
+    ∃ r0 r1 r2 r3 r4 r5 r6 r7, schoolbook a b = (r0, r1, r2, r3, r4, r5, r6, r7) ∧
+      r0 < W ∧ r1 < W ∧ r2 < W ∧ r3 < W ∧ r4 < W ∧ r5 < W ∧ r6 < W ∧ r7 < W ∧
+      val8 r0 r1 r2 r3 r4 r5 r6 r7 = a.val * b.val := by
+  obtain ⟨a0, a1, a2, a3⟩ := a
+  obtain ⟨b0, b1, b2, b3⟩ := b
+  obtain ⟨ha0, ha1, ha2, ha3⟩ := ha
+  obtain ⟨hb0, hb1, hb2, hb3⟩ := hb
+  simp only [schoolbook, L4.val, val8] at *
+  obtain ⟨p0, q0, e0, g0, lp0, lq0⟩ := mac_pair_lt 0 a0 b0 0 W_pos ha0 hb0 W_pos
+  simp only [e0]
+  obtain ⟨p1, q1, e1, g1, lp1, lq1⟩ := mac_pair_lt 0 a0 b1 q0 W_pos ha0 hb1 lq0
+  simp only [e1]
+  obtain ⟨p2, q2, e2, g2, lp2, lq2⟩ := mac_pair_lt 0 a0 b2 q1 W_pos ha0 hb2 lq1
+  simp only [e2]
+  obtain ⟨p3, p4, e3, g3, lp3, lp4⟩ := mac_pair_lt 0 a0 b3 q2 W_pos ha0 hb3 lq2
+  simp only [e3]
+  obtain ⟨s1, t0, e4, g4, ls1, lt0⟩ := mac_pair_lt p1 a1 b0 0 lp1 ha1 hb0 W_pos
+  simp only [e4]
+  obtain ⟨s2, t1, e5, g5, ls2, lt1⟩ := mac_pair_lt p2 a1 b1 t0 lp2 ha1 hb1 lt0
+  simp only [e5]
+  obtain ⟨s3, t2, e6, g6, ls3, lt2⟩ := mac_pair_lt p3 a1 b2 t1 lp3 ha1 hb2 lt1
+  simp only [e6]
+  obtain ⟨s4, s5, e7, g7, ls4, ls5⟩ := mac_pair_lt p4 a1 b3 t2 lp4 ha1 hb3 lt2
+  simp only [e7]
+  obtain ⟨u2, v0, e8, g8, lu2, lv0⟩ := mac_pair_lt s2 a2 b0 0 ls2 ha2 hb0 W_pos
+  simp only [e8]
+  obtain ⟨u3, v1, e9, g9, lu3, lv1⟩ := mac_pair_lt s3 a2 b1 v0 ls3 ha2 hb1 lv0
+  simp only [e9]
+  obtain ⟨u4, v2, e10, g10, lu4, lv2⟩ := mac_pair_lt s4 a2 b2 v1 ls4 ha2 hb2 lv1
+  simp only [e10]
+  obtain ⟨u5, u6, e11, g11, lu5, lu6⟩ := mac_pair_lt s5 a2 b3 v2 ls5 ha2 hb3 lv2
+  simp only [e11]
+  obtain ⟨w3, z0, e12, g12, lw3, lz0⟩ := mac_pair_lt u3 a3 b0 0 lu3 ha3 hb0 W_pos
+  simp only [e12]
+  obtain ⟨w4, z1, e13, g13, lw4, lz1⟩ := mac_pair_lt u4 a3 b1 z0 lu4 ha3 hb1 lz0
+  simp only [e13]
+  obtain ⟨w5, z2, e14, g14, lw5, lz2⟩ := mac_pair_lt u5 a3 b2 z1 lu5 ha3 hb2 lz1
+  simp only [e14]
+  obtain ⟨w6, w7, e15, g15, lw6, lw7⟩ := mac_pair_lt u6 a3 b3 z2 lu6 ha3 hb3 lz2
+  simp only [e15]
+  refine ⟨p0, s1, u2, w3, w4, w5, w6, w7, rfl, lp0, ls1, lu2, lw3, lw4, lw5, lw6, lw7, ?_⟩
+  have e : (a0 + a1 * W + a2 * W ^ 2 + a3 * W ^ 3) * (b0 + b1 * W + b2 * W ^ 2 + b3 * W ^ 3) =
+      a0 * b0 + (a0 * b1 + a1 * b0) * W + (a0 * b2 + a1 * b1 + a2 * b0) * W ^ 2 +
+      (a0 * b3 + a1 * b2 + a2 * b1 + a3 * b0) * W ^ 3 + (a1 * b3 + a2 * b2 + a3 * b1) * W ^ 4 +
+      (a2 * b3 + a3 * b2) * W ^ 5 + a3 * b3 * W ^ 6 := by
+    have := schoolbook_poly (a0 : Int) a1 a2 a3 b0 b1 b2 b3 W
+    exact_mod_cast this
+  rw [e]
+  simp only [W2_lit, W3_lit, W4_eq, W5_lit, W6_lit, W7_lit] at *
+  simp only [W1_lit] at *
+  omega
 
 end MidnightZK.C10
